@@ -2,7 +2,6 @@ package checks
 
 import (
 	"bytes"
-	"time"
 	"encoding/json"
 	"fmt"
 	"net/http"
@@ -10,6 +9,7 @@ import (
 	"sort"
 	"strings"
 	"sync"
+	"time"
 
 	"github.com/gorilla/mux"
 
